@@ -38,16 +38,31 @@ type ilCase struct {
 
 // journal records the case about to run, so that a crash of the whole process (a panic in a
 // goroutine of the driver) still leaves a replayable script behind.
+var journalRing []any
+
 func journal(key string, c any) {
 	path := os.Getenv("VERIF_JOURNAL")
 	if path == "" {
 		return
 	}
-	data, _ := json.Marshal(map[string]any{"check": key, "case": c})
+	var payload any = c
+	if os.Getenv("VERIF_RACE") != "" {
+		// a race report does not stop the process and may stem from an earlier case: keep the
+		// most recent ones together as the history to replay
+		journalRing = append(journalRing, c)
+		if len(journalRing) > 12 {
+			journalRing = journalRing[len(journalRing)-12:]
+		}
+		payload = map[string]any{"recent_cases_oldest_first": journalRing}
+	}
+	data, _ := json.Marshal(map[string]any{"check": key, "case": payload})
 	_ = os.WriteFile(path, data, 0o644)
 }
 
 func clearJournal() {
+	if os.Getenv("VERIF_RACE") != "" {
+		return
+	}
 	if path := os.Getenv("VERIF_JOURNAL"); path != "" {
 		_ = os.Remove(path)
 	}
